@@ -17,7 +17,7 @@ RULE = ("G1 non-recursive grammar specs (<=4 nonterminals, <=3 rules each, <=4 e
 ASSUMPTIONS = ["every terminal has a FiniteFactor and every node label a finite domain (the statement's domain)",
                "Log/Viterbi weights are the logs of the Real weights; Bool weights are w>0",
                "tolerance |a-b| <= rtol*(1+|b|), rtol 1e-9 (float64) / 1e-4 (float32); infinities and zeros exact"]
-ESSENTIAL_LABELS = ['disconnected-internal', 'edgeless-external', 'repeated-attachment', 'ruleless-nt',
+ESSENTIAL_LABELS = ['patterned-weight', 'disconnected-internal', 'edgeless-external', 'repeated-attachment', 'ruleless-nt',
                     'unreachable-nt', 'start-arity>0', 'zero-weight', 'inf-weight', 'size1-domain']
 KINDS = ['real', 'log', 'viterbi', 'bool']
 METHODS = ['fixed-point', 'newton', 'linear']
@@ -29,8 +29,10 @@ def budget(tier):
 
 @st.composite
 def cases(draw, tier):
-    spec = draw(gen_fgg.specs(recursive=False, weights=(0.0, 0.0, 0.25, 0.5, 1.0, 1.0, 2.0, 3.0, of.INF),
-                              max_dom=3 if tier == 'quick' else 4))
+    base = gen_fgg.specs(recursive=False, weights=(0.0, 0.0, 0.25, 0.5, 1.0, 1.0, 2.0, 3.0, of.INF),
+                         max_dom=3 if tier == 'quick' else 4)
+    # a quarter of the specs carry typed patterned factor weights (sums, products, shared axes, stride-0 views)
+    spec = draw(gen_fgg.patterned(base, weights=(0.0, 0.25, 0.5, 1.0, 2.0, of.INF)) if draw(st.integers(0, 3)) == 0 else base)
     nconf = 6 if tier == 'quick' else 10
     configs = []
     for _ in range(nconf):
